@@ -16,29 +16,22 @@ FONT_NAMES = ("ttFont", "font", "otFont")
 
 
 
-def _inline_locals(fn, expr):
-    """``expr`` with every plain local that is assigned exactly once in ``fn`` replaced by its defining expression
-    (one level is enough for `head = self.tables["head"]; ... head.offset + 8`)."""
-    defs = {}
-    for n in walk_no_nested(fn):
-        if isinstance(n, ast.Assign) and len(n.targets) == 1 and isinstance(n.targets[0], ast.Name):
-            defs.setdefault(n.targets[0].id, []).append(n.value)
+from ..core import inline_locals as _inline_locals
+from ..consteval import cnorm
 
-    class T(ast.NodeTransformer):
-        def visit_Name(self, n):
-            v = defs.get(n.id)
-            if isinstance(n.ctx, ast.Load) and v and len(v) == 1:
-                return v[0]
-            return n
+_text_norm = norm
+norm = cnorm  # every text comparison in this module is made after folding named constants to their literal values
 
-    import copy
 
-    return T().visit(copy.deepcopy(expr))
+def _default_env_of(node):
+    from ..consteval import _default_env
+
+    return _default_env(node)
 
 
 def _head_patch_offset(fn, want):
     seeks = [c.args[0] for c in calls_in(fn) if last_attr(c) == "seek" and c.args]
-    texts = [norm(_inline_locals(fn, e)) for e in seeks]
+    texts = [cnorm(_inline_locals(fn, e), _default_env_of(fn)) for e in seeks]
     return texts, texts == [f"self.tables['head'].offset + {want}"]
 
 
@@ -191,7 +184,7 @@ def container_constants(ctx, repo):
     ctx.ob("CONST", m.rel + ":<module>", f"sfnt directory = {sizes['sfntDirectoryFormat'].size} bytes, entry = {sizes['sfntDirectoryEntryFormat'].size} bytes", sizes["sfntDirectoryFormat"].size == 12 and sizes["sfntDirectoryEntryFormat"].size == 16)
     ctx.ob("CONST", m.rel + ":<module>", f"WOFF header = {sizes['woffDirectoryFormat'].size} bytes, entry = {sizes['woffDirectoryEntryFormat'].size} bytes", sizes["woffDirectoryFormat"].size == 44 and sizes["woffDirectoryEntryFormat"].size == 20)
     for nm in ("sfntDirectorySize", "sfntDirectoryEntrySize", "woffDirectorySize", "woffDirectoryEntrySize"):
-        src = norm(m.const(nm))
+        src = _text_norm(m.const(nm))
         want = f"sstruct.calcsize({nm.replace('Size', 'Format')})"
         ctx.ob("CONST", m.rel + ":<module>", f"{nm} = {src}", src == want, "" if src == want else "size constant no longer derived from its format")
     # literals in SFNTWriter.close: totalSfntSize = 12 + 16 * n
@@ -236,7 +229,7 @@ def alignment(ctx, repo):
         mod = repo.mod(rel)
         for n in ast.walk(mod.tree):
             if isinstance(n, ast.BinOp) and isinstance(n.op, ast.BitAnd) and isinstance(n.right, ast.UnaryOp) and isinstance(n.right.op, ast.Invert):
-                t = norm(n)
+                t = _text_norm(n)
                 m = re.fullmatch(r"(.+) \+ 3 & ~3", t)
                 from .safety import _func_qual_of
 
@@ -244,6 +237,7 @@ def alignment(ctx, repo):
     m = repo.mod("ttLib/sfnt.py")
     si = m.func("SFNTWriter.__setitem__")
     txt = norm(si.node)
+    txt = txt.replace("& -4", "& ~3")
     ok = "self.nextTableOffset = self.nextTableOffset + (entry.length + 3 & ~3)" in txt and "self.file.write(b'\\x00' * (self.nextTableOffset - self.file.tell()))" in txt
     ctx.ob("ALIGN", si.where, "table padded with NULs up to nextTableOffset = offset + padded length", ok, "" if ok else "padding bytes or next offset no longer follow the 4-byte rule")
     ok = "entry.offset = self.nextTableOffset" in txt
@@ -355,8 +349,8 @@ def checksum_twins(ctx, repo):
     seek, ok = _head_patch_offset(w.node, 8)
     ctx.ob("F22-hv", w.where, f"WOFF2 checksum adjustment written at {seek}", ok)
     c = repo.mod("ttLib/woff2.py").func("WOFF2Writer._calcSFNTChecksumsLengthsAndOffsets")
-    txt = norm(c.node)
-    ok = "offset = sfntDirectorySize + sfntDirectoryEntrySize * len(self.tables)" in txt and "offset += entry.origLength + 3 & ~3" in txt and "calcChecksum(data[:8] + b'\\x00\\x00\\x00\\x00' + data[12:])" in txt
+    txt = norm(c.node).replace("& -4", "& ~3")
+    ok = ("offset = sfntDirectorySize + sfntDirectoryEntrySize * len(self.tables)" in txt or "offset = 12 + 16 * len(self.tables)" in txt) and "offset += entry.origLength + 3 & ~3" in txt and "calcChecksum(data[:8] + b'\\x00\\x00\\x00\\x00' + data[12:])" in txt
     ctx.ob("F22-hv", c.where, "original sfnt offsets: directory size + padded table lengths; head checksum with zeroed adjustment", ok)
 
 
